@@ -5,8 +5,17 @@ EXTENDS Wide, Bytes, TLC, Json, FiniteSets
 VARIABLES done
 Two31m1 == << 65535, 32767, 0, 0 >>
 OneGiB == << 0, 16384, 0, 0 >>
-Sizes == [ s0 |-> W(0), s5 |-> W(5), g1 |-> OneGiB, m31m1 |-> Two31m1, m31 |-> Two31, m32m1 |-> U32Max, m32 |-> Two32 ]
-Dec == [ s0 |-> "0", s5 |-> "5", g1 |-> "1073741824", m31m1 |-> "2147483647", m31 |-> "2147483648", m32m1 |-> "4294967295", m32 |-> "4294967296" ]
+\* exact edges of the offset rules (the first size that must be refused in its vector):
+\*   c1  = 2^32 - 76     one CLM member: 60 + 16 + c1 = 2^32
+\*   c2  = 2^32 - 97     CLM members <<c2, 5>>: 60 + 32 + c2 + 5 = 2^32
+\*   v5  = 2^30 - 155    VOL members <<1 GiB, 1 GiB, 1 GiB, v5, 5>>: the fifth block would start at 120 + 32 + 3 * 2^30 + Up4(v5) = 2^32
+ClmEdge1 == << 65460, 65535, 0, 0 >>
+ClmEdge2 == << 65439, 65535, 0, 0 >>
+VolEdge5 == << 65381, 16383, 0, 0 >>
+Sizes == [ s0 |-> W(0), s5 |-> W(5), g1 |-> OneGiB, m31m1 |-> Two31m1, m31 |-> Two31, m32m1 |-> U32Max, m32 |-> Two32, c1 |-> ClmEdge1, c2 |-> ClmEdge2, v5 |-> VolEdge5 ]
+Dec == [ s0 |-> "0", s5 |-> "5", g1 |-> "1073741824", m31m1 |-> "2147483647", m31 |-> "2147483648", m32m1 |-> "4294967295", m32 |-> "4294967296",
+         c1 |-> "4294967220", c2 |-> "4294967199", v5 |-> "1073741669" ]
+EdgesAreEdges == /\ WAdd(W(76), ClmEdge1) = Two32 /\ WAdd(W(97), ClmEdge2) = Two32 /\ WAdd(W(155), VolEdge5) = OneGiB
 \* VOL with one-letter names a, b, c, ...: header = 8 + 24 + Up4(4 + 2n) + Up4(14n)
 Up4I(n) == n + ((4 - (n % 4)) % 4)
 FirstBlock(n) == 32 + Up4I(4 + 2 * n) + Up4I(14 * n)
@@ -48,8 +57,10 @@ TypedCase(w, vals) == [op |-> "typed_roundtrip", width |-> w, values |-> vals,
                        segs |-> << Lit(Flatten([i \in 1..Len(vals) |-> LEw(vals[i] % (IF w = 1 THEN 256 ELSE IF w = 2 THEN 65536 ELSE 2147483647), w)])) >>]
 Init == done = FALSE
 Next == /\ ~done /\ done' = TRUE
-        /\ \A ks \in Vectors : Emit("vol_limit", ks, VolRefused(Vec(ks)))
-        /\ \A ks \in Vectors : Emit("clm_limit", ks, ClmRefused(Vec(ks)))
+        /\ \A ks \in Vectors \cup { <<"g1", "g1", "g1", "v5", "s5">> } : Emit("vol_limit", ks, VolRefused(Vec(ks)))
+        /\ \A ks \in Vectors \cup { <<"c1">>, <<"c2", "s5">>, <<"s5", "c2">> } : Emit("clm_limit", ks, ClmRefused(Vec(ks)))
+        /\ Assert(EdgesAreEdges, "edge constants") /\ Assert(VolRefused(Vec(<<"g1", "g1", "g1", "v5", "s5">>)), "VOL edge must be refused")
+        /\ Assert(ClmRefused(Vec(<<"c1">>)) /\ ClmRefused(Vec(<<"c2", "s5">>)) /\ ClmRefused(Vec(<<"s5", "c2">>)), "CLM edges must be refused")
         /\ \A i \in 1..Len(SignedTypes) : LET T == SignedTypes[i] IN
              \A raw \in {0, 1, T.half - 1, T.half, T.half + 1, T.mod - 2, T.mod - 1} : \A follow \in {0, raw, T.mod + 10} :
                PrintT("S|" \o ToJson([id |-> <<"prefix-read", T.name, raw, follow>>, steps |-> << PrefixReadCase(T, raw, follow) >>]))
